@@ -1181,6 +1181,10 @@ class Explorer:
         self.max_steps = max_steps
         self.max_decisions = max_decisions
         self.solver = z3.Solver()
+        self.xcap = 0
+        self.xsamples = []
+        import random as _random
+        self._xrng = _random.Random(12345)
         self.frames = 0
         self.prefix = []          # records to replay
         self.solver_valid = 0     # number of leading prefix events whose solver effect is still in place
@@ -1197,6 +1201,23 @@ class Explorer:
         r = self.solver.check(*extra)
         self.stats["solver_s"] += time.time() - t
         self.stats["queries"] += 1
+        if self.xcap and r in (z3.sat, z3.unsat):
+            # reservoir sample of the queries, kept as SMT-LIB2 text for the cross-solver re-check
+            n = self.stats["queries"]
+            k = None
+            if len(self.xsamples) < self.xcap:
+                k = len(self.xsamples)
+                self.xsamples.append(None)
+            else:
+                j = self._xrng.randrange(n)
+                if j < self.xcap:
+                    k = j
+            if k is not None:
+                tmp = z3.Solver()
+                tmp.add(self.solver.assertions())
+                for e in extra:
+                    tmp.add(e)
+                self.xsamples[k] = (tmp.to_smt2(), "sat" if r == z3.sat else "unsat")
         return r
 
     def _model(self, ctx):
